@@ -6,6 +6,7 @@
 //  sc=3 transfer scripts against a byte-queue reference model
 //  sc=4 two readers on one socket      sc=5 reader and writer blocked on the same descriptor
 //  sc=6 two acceptors, two connections sc=7 reader blocked while another fiber closes the descriptor
+//  sc=8 a descriptor number is reused by another fiber while close() of the old one is still in progress
 #include <errno.h>
 #include <fcntl.h>
 #include <limits.h>
@@ -294,6 +295,26 @@ static void* closing_reader(void* p) {
   got_byte(0, n == 0 ? 1000 : errno);
   return 0;
 }
+static int r_sv[2], r_about;
+GHOST static void r_set_about(void) { r_about = 1; }
+GHOST static int r_is_about(void) { return r_about; }
+static void* closer(void* p) {
+  close(s_sv[0]);
+  close(s_sv[1]);
+  return 0;
+}
+static void* reuser(void* p) {
+  // gets the lowest free descriptor numbers - the ones the closer is giving back
+  if (socketpair(AF_UNIX, SOCK_STREAM, 0, r_sv)) fmc_fail("io harness: socketpair failed");
+  r_set_about();
+  fiber_yield();  // anything may happen between creating a socket and first using it
+  unsigned char b = 0;
+  errno = 0;
+  ssize_t n = read(r_sv[0], &b, 1);
+  if (n != 1 || b != 'R') fmc_fail("io: blocking read on a freshly created socket returned %zd errno %d%s", n, errno, (errno == EAGAIN || errno == EWOULDBLOCK) ? " (EAGAIN must never reach a blocking caller)" : "");
+  got_byte(0, b);
+  return 0;
+}
 static void multi(void) {
   fiber_t* f[4];
   int nf = 0;
@@ -333,6 +354,18 @@ static void multi(void) {
       for (int i = 0; i < 200 && accepted() <= k; i++) { rt_force_balance(); fiber_yield(); }
       if (accepted() <= k) fmc_fail("io: a pending connection was not accepted by either blocked acceptor");
     }
+  } else if (sc == 8) {
+    mk_pair(s_sv);
+    f[nf++] = fiber_create(STK, closer, 0);
+    f[nf++] = fiber_create(STK, reuser, 0);
+    // main blocks in a join: the two fibers share the two kernel threads among themselves
+    if (fiber_join(f[0], 0) != FIBER_SUCCESS) fmc_fail("io harness: join failed");
+    f[0] = f[1];
+    nf = 1;
+    for (int i = 0; i < 100 && !r_is_about(); i++) fiber_yield();
+    if (!r_is_about()) fmc_fail("io harness: the reusing fiber did not start");
+    for (int i = 0; i < 3; i++) { rt_force_balance(); fiber_yield(); }  // give the reader time to block first
+    if (syscall(SYS_write, r_sv[1], "R", 1) != 1) fmc_fail("io harness: peer write failed");
   } else {
     mk_pair(s_sv);
     f[nf++] = fiber_create(STK, closing_reader, 0);
